@@ -542,6 +542,11 @@ class DatasetProcessor:
         )
         return chr_ids
 
+    def count_unaligned_reads(self, sample):
+        for bam_file in list(map(lambda x: x[0], sample.file_list)):
+            bam = pysam.AlignmentFile(bam_file, "rb", require_index=True)
+            self.alignment_stat_counter.add(AlignmentType.unaligned, bam.unmapped)
+
     def collect_reads(self, sample):
         logger.info('Collecting read alignments')
         chr_ids = self.get_chr_list()
@@ -551,6 +556,9 @@ class DatasetProcessor:
         if os.path.exists(lock_file):
             if self.args.resume:
                 logger.info("Collected reads detected, will not process")
+                # the number of unaligned reads (the __not_aligned line of the count tables) is not stored with the
+                # collected reads: take it from the BAM files again
+                self.count_unaligned_reads(sample)
                 return
             else:
                 os.remove(lock_file)
@@ -592,9 +600,7 @@ class DatasetProcessor:
         total_assignments += unique_assignments
         polya_assignments += polya_unique_assignments
 
-        for bam_file in list(map(lambda x: x[0], sample.file_list)):
-            bam = pysam.AlignmentFile(bam_file, "rb", require_index=True)
-            self.alignment_stat_counter.add(AlignmentType.unaligned, bam.unmapped)
+        self.count_unaligned_reads(sample)
         self.alignment_stat_counter.print_start("Alignments collected, overall alignment statistics:")
 
         info_dumper = open(info_file, "wb")
